@@ -1253,6 +1253,27 @@ class AObj:
     attribute access in interpreted code reads the Python attribute."""
 
 
+class DelegatingAObj(AObj):
+    """An abstract stand-in for an instance of a repository class: attributes the stand-in does not script itself are
+    the *real* methods of that class (``_real_class``, a :class:`ClassVal`), bound to the stand-in — so that a method
+    under interpretation may call private helper methods of its own class, however the class is factored."""
+    _real_class = None
+
+    def __getattr__(self, name):
+        rc = type(self)._real_class if '_real_class' not in self.__dict__ else self.__dict__['_real_class']
+        if rc is None or name.startswith('__') and name.endswith('__') and name in ('__deepcopy__', '__getstate__', '__setstate__'):
+            raise AttributeError(name)
+        v = rc.find(name)
+        if isinstance(v, FuncVal):
+            decs = v.decorators()
+            if 'staticmethod' in decs:
+                return v
+            if 'classmethod' in decs:
+                return BoundMethod(rc, v)
+            return BoundMethod(self, v)
+        raise AttributeError(name)
+
+
 class _Counter(AObj if 'AObj' in globals() else object):
     """``itertools.count(start, step)`` (module-level index counters of the repository)."""
 
